@@ -169,9 +169,11 @@ class SearchKey(Parseable[bytes]):
             pass
         inverse = False
         match = cls._not_pattern.match(buf)
-        if match:
-            inverse = True
+        while match:
+            # search-key = "NOT" SP search-key, any number of times
+            inverse = not inverse
             buf = buf[match.end(0):]
+            match = cls._not_pattern.match(buf)
         try:
             # a bare set is always message sequence numbers, the UID prefix
             # of the command only changes what is returned
